@@ -122,6 +122,31 @@ def generate(seed, tier):
                         '    [](Tensor<T,N,N>& D, const Tensor<T,N,N>& A, const Tensor<T,N,N>& B, const Tensor<T,N,N>& C, T s) { %s D %s %s; });\n}\nVP_CASE("@KEY@", @FN@);'
                         % (tn, n, 'true' if exact else 'false', lz, ' '.join(pre), op, eg))
                 cases[key] = Case(key, code)
+    # non-square statements: (lazy text, eager text, exact?) ; tab = matmul(A,B), tct = transpose(Ct), tbt = transpose(Bt)
+    nsq = [('A % B', 'tab', True), ('E + A % B', 'E + tab', True), ('(A % B) * E', 'tab * E', True), ('trans(Ct)', 'tct', True), ('E - trans(Ct)', 'E - tct', True),
+           ('(A % B) - trans(Ct)', 'tab - tct', True), ('s * (A % B)', 's * tab', True), ('trans(Ct) * E + A % B', 'tct * E + tab', True), ('E / trans(Ct)', 'E / tct', False),
+           ('A % trans(Bt)', 'matmul(A, tbt)', True), ('s / trans(Ct)', 's / tct', False), ('trans(Ct) / E', 'tct / E', False), ('trans(Ct + Ct)', 'transpose(evaluate(Ct + Ct))', True),
+           ('(A + A) % B', 'matmul(evaluate(A + A), B)', True), ('A % (B - B * s)', 'matmul(A, evaluate(B - B * s))', True)]
+    shapes = [(2, 3, 4), (5, 2, 3), (3, 8, 9), (9, 4, 2), (1, 5, 7), (4, 4, 7), (7, 1, 2), (8, 3, 5), (3, 9, 16), (17, 2, 4)]
+    allnsq = [(lz, eg, ex, op, shp) for (lz, eg, ex) in nsq for op in ops for shp in shapes]
+    for (lz, eg, ex, op, (m, k, n)) in (rnd.sample(allnsq, 90) if quick else allnsq):
+        tn, tk = FT[(m + k + len(lz) + len(op)) % 2]
+        exact = ex and op != '/='
+        key = 'C09|nsq|%s|%dx%dx%d|D%s%s' % (tk, m, k, n, op, lz.replace(' ', ''))
+        args = 'Tensor<T,M,N>& D, const Tensor<T,M,K>& A, const Tensor<T,K,N>& B, const Tensor<T,N,K>& Bt, const Tensor<T,N,M>& Ct, const Tensor<T,M,N>& E, T s'
+        pre = []
+        if 'tab' in eg:
+            pre.append('Tensor<T,M,N> tab = matmul(A, B);')
+        if 'tct' in eg:
+            pre.append('Tensor<T,M,N> tct = transpose(Ct);')
+        if 'tbt' in eg:
+            pre.append('Tensor<T,K,N> tbt = transpose(Bt);')
+        code = ('static void @FN@(vp::Ctx& c) { using namespace Fastor; using T = %s; constexpr size_t M = %d, K = %d, N = %d;\n'
+                '  vp::c09::stmt_nsq<T, M, K, N, %s>(c,\n'
+                '    [](%s) { D %s %s; },\n'
+                '    [](%s) { %s D %s %s; });\n}\nVP_CASE("@KEY@", @FN@);'
+                % (tn, m, k, n, 'true' if exact else 'false', args, op, lz, args, ' '.join(pre), op, eg))
+        cases[key] = Case(key, code)
     # product chains: extent patterns chosen from {1,2,3,8,9}
     ext = [1, 2, 3, 8, 9]
     for L, fn in ((3, 'chain3'), (4, 'chain4'), (5, 'chain5')):
